@@ -427,7 +427,7 @@ fn source_plane(rep: &Report, per_form: usize, core: bool, seed: u64) {
             } else {
                 Ins::Un([Un::Inc, Un::Dec, Un::Neg][o - 5], un_form(form, &mut rng, &bl, &wl))
             };
-            let mut sp = if it % 2 == 0 { Spell::plain() } else { Spell::random(rng.fork(it as u64)) };
+            let mut sp = if it % 2 == 0 { Spell::plain() } else { Spell::random_syn(rng.fork(it as u64)) };
             let text = format!("{}start:\n{}\n", data_src, ins.src(&mut sp));
             let a = match asm::assemble(&text) {
                 Ok(a) => a,
